@@ -155,3 +155,20 @@ CHECKS["C07"] = {
     "explanation": "symbolic grid of letters/qualities, symbolic operation string (AppendColumns with caller-buffer reuse, AppendEach with unequal runs, Delete, Add, Clone-then-mutate, RevComp, Reverse); after every step row view, column view and reference grid must agree",
     "outside": "grids larger than stated, longer operation strings, container offsets other than 0 for column-stored alignments, DefaultQConsensus (floating point)",
 }
+
+
+def c18_jobs(tier):
+    jobs = [{"pkgdir": "alphabet", "func": "VerifC18_Codec", "params": {"encoding": e}} for e in range(6)]
+    jobs.append({"pkgdir": "alphabet", "func": "VerifC18_Convert", "params": {}})
+    jobs.append({"pkgdir": "alphabet", "func": "VerifC18_Tables", "params": {}, "witnesses": 1})
+    return jobs
+
+
+CHECKS["C18"] = {
+    "jobs": c18_jobs,
+    "post": "c18_tables",
+    "functions": ["alphabet.Encoding.{DecodeToQphred,DecodeToQsolexa}", "alphabet.Qphred.{Encode,ProbE,Qsolexa}", "alphabet.Qsolexa.{Encode,ProbE,Qphred}", "alphabet.{Ephred,Esolexa}",
+                  "the four table initialisers (run by the engine on the host FPU)"],
+    "explanation": "(1) encode/decode identities for a symbolic score/byte per encoding (bit-vectors); (2) conversion tables mutually inverse from Q=10 (symbolic index into the real tables); (3) every finite table entry checked against its analytic definition in exact real arithmetic (QF_NRA, r=10^(1/20)): correct rounding sandwich for the conversion tables, relative error <= 2^-40 for the probability tables, monotonicity; (4) Ephred(ProbE(q))=q and Esolexa(ProbE(s))=s executed on every table point",
+    "outside": "a dense sample of probabilities in (0,1) (floating-point log10 of a symbolic value is out of reach); Qsolexa.Encode under Phred-offset encodings",
+}
